@@ -201,6 +201,7 @@ def run(rep, facts, tier):
         if name == "R":
             continue
         loc = G.base_summaries_M(cfg, rep) if name == "M" else {}
+        G.check_select(rep, cfg)
         ops = G.enumerate_ops(cfg, TRAITS)
         counts[name] = len(ops)
         for path, b, tr, sorts in ops:
